@@ -254,6 +254,7 @@ const smtPrelude = `(declare-datatypes ((Ref 0)) (((mkref (rid Int) (roff Int)))
 (declare-sort Func 0)
 (declare-fun strlen (Str) Int)
 (declare-fun dyn (Ref) Int)
+(declare-fun otype (Int) Int)
 (declare-fun eaddr (Ref Int Int) Ref)
 (assert (forall ((b Ref) (i Int) (k Int)) (! (= (eaddr b i k) (mkref (rid b) (+ (roff b) (* i k)))) :pattern ((eaddr b i k)))))
 `
